@@ -192,11 +192,14 @@ theorem process_fields (s : St) (f : Feed) (ad k : Nat) (hf : f.addr? = some (ad
   have fe := frames_enter s ad
   simp only [process, hf]
   split
-  · exact ⟨ke.readQ, ke.hand, ke.cfg, fe.connected, Or.inl ⟨rfl, ke.rUnf, ke.consumers⟩⟩
-  · obtain ⟨g1, g2, g3, g4, g5, g6⟩ := finishFrame_fields (enter s ad).1 f ad k hf
-    refine ⟨g1.trans ke.readQ, g2.trans ke.hand, g4.trans ke.cfg, g5.trans fe.connected, Or.inr ⟨rfl, ?_, ?_⟩⟩
-    · rw [g3, ke.rUnf]
-    · rw [g6, fe.connected, ke.consumers]
+  · obtain ⟨g1, g2, g3, g4, g5, g6⟩ := finishFrame_fields s f ad k hf
+    exact ⟨g1, g2, g4, g5, Or.inr ⟨rfl, g3, g6⟩⟩
+  · split
+    · exact ⟨ke.readQ, ke.hand, ke.cfg, fe.connected, Or.inl ⟨rfl, ke.rUnf, ke.consumers⟩⟩
+    · obtain ⟨g1, g2, g3, g4, g5, g6⟩ := finishFrame_fields (enter s ad).1 f ad k hf
+      refine ⟨g1.trans ke.readQ, g2.trans ke.hand, g4.trans ke.cfg, g5.trans fe.connected, Or.inr ⟨rfl, ?_, ?_⟩⟩
+      · rw [g3, ke.rUnf]
+      · rw [g6, fe.connected, ke.consumers]
 
 
 theorem process_gates (s : St) (f : Feed) : (process s f).1.gates = s.gates := by
@@ -219,8 +222,10 @@ theorem process_gates (s : St) (f : Feed) : (process s f).1.gates = s.gates := b
   · rename_i ad k _
     simp only []
     split
-    · exact he ad
-    · rw [hff]; exact he ad
+    · exact hff s f
+    · split
+      · exact he ad
+      · rw [hff]; exact he ad
 
 theorem process_not_blocked (s : St) (f : Feed) (hg : s.gates = []) : (process s f).2.2 = false := by
   unfold process
@@ -228,7 +233,10 @@ theorem process_not_blocked (s : St) (f : Feed) (hg : s.gates = []) : (process s
   · rfl
   · rename_i ad k _
     have : (enter s ad).2.2 = false := by unfold enter; split <;> simp [hg]
-    simp [this]
+    simp only []
+    split
+    · rfl
+    · simp [this]
 
 theorem cinv_take {s : St} (h : CInv s) : CInv (take s).1 := by
   unfold take
@@ -565,6 +573,33 @@ theorem nDel_handle (s : St) (f : Feed) (a k : Nat) :
   cases f with
   | foreign => simp [handle, nPut, nDel, isFor, Feed.addr?]
   | bad => simp [handle, nPut, nDel, isFor, Feed.addr?]
+  | orphan ad =>
+    simp only [handle, nPut, nDel, List.countP_cons, List.countP_nil, isPut, isDel, isFor, Feed.addr?]
+    constructor
+    · simp
+    · by_cases h : (ad == a && kindUndec == k) = true
+      · have : (some (ad, kindUndec) == some (a, k)) = true := by
+          simp only [Bool.and_eq_true, beq_iff_eq] at h; simp [h.1, h.2]
+        simp [h, this]
+      · have : (some (ad, kindUndec) == some (a, k)) = false := by
+          simp only [Bool.and_eq_true, beq_iff_eq, not_and] at h
+          simp only [beq_eq_false_iff_ne, ne_eq, Option.some.injEq, Prod.mk.injEq, not_and]; exact h
+        simp [h, this]
+  | undec =>
+    have c := (he s.devices ecomaxAddr).counts a k
+    simp only [handle, nPut, nDel, List.countP_append] at c ⊢
+    rw [c.1, c.2]
+    simp only [List.countP_cons, List.countP_nil, isPut, isDel, isFor, Feed.addr?]
+    constructor
+    · simp
+    · by_cases h : (ecomaxAddr == a && kindUndec == k) = true
+      · have : (some (ecomaxAddr, kindUndec) == some (a, k)) = true := by
+          simp only [Bool.and_eq_true, beq_iff_eq] at h; simp [h.1, h.2]
+        simp [h, this]
+      · have : (some (ecomaxAddr, kindUndec) == some (a, k)) = false := by
+          simp only [Bool.and_eq_true, beq_iff_eq, not_and] at h
+          simp only [beq_eq_false_iff_ne, ne_eq, Option.some.injEq, Prod.mk.injEq, not_and]; exact h
+        simp [h, this]
   | pw ad =>
     have c := (he s.devices ad).counts a k
     simp only [handle, nPut, nDel, List.countP_append] at c ⊢
@@ -611,10 +646,13 @@ theorem process_outs (s : St) (f : Feed) (ad k' : Nat) (hf : f.addr? = some (ad,
   have ce := he.counts a k
   simp only [process, hf]
   split
-  · simp [ce.1, ce.2]
-  · have cf := finishFrame_outs (enter s ad).1 f ad k' hf a k
-    simp only [nPut, nDel, List.countP_append] at ce cf ⊢
-    rw [ce.1, ce.2, cf.1, cf.2]; simp
+  · have cf := finishFrame_outs s f ad k' hf a k
+    simpa using cf
+  · split
+    · simp [ce.1, ce.2]
+    · have cf := finishFrame_outs (enter s ad).1 f ad k' hf a k
+      simp only [nPut, nDel, List.countP_append] at ce cf ⊢
+      rw [ce.1, ce.2, cf.1, cf.2]; simp
 
 theorem countP_isFor_cons (a k : Nat) (f : Feed) (l : List Feed) :
     (f :: l).countP (isFor a k) = (if isFor a k f then 1 else 0) + l.countP (isFor a k) := by
@@ -844,6 +882,8 @@ theorem nd_handle (s : St) (f : Feed) (h : (addrs s).Nodup) : (addrs (handle s f
   cases f with
   | foreign => exact h
   | bad => exact h
+  | orphan a => exact h
+  | undec => exact nd_ensureDev _ _ h
   | pw a =>
     show ((updDev (ensureDev s.devices a).1 a _).map Dev.addr).Nodup
     rw [map_addr_updDev]
@@ -883,8 +923,10 @@ theorem nd_process (s : St) (f : Feed) (h : (addrs s).Nodup) : (addrs (process s
   · rename_i ad k _
     simp only []
     split
-    · exact nd_enter s ad h
-    · exact nd_finishFrame _ f (nd_enter s ad h)
+    · exact nd_finishFrame s f h
+    · split
+      · exact nd_enter s ad h
+      · exact nd_finishFrame _ f (nd_enter s ad h)
 
 theorem nd_take (s : St) (h : (addrs s).Nodup) : (addrs (take s).1).Nodup := by
   unfold take
